@@ -26,8 +26,9 @@ PLAN = dict(
         dict(name="sxgd", run="^TestFaultSxgDump$", timeout=(300, 900), shards=(1, 8)),
         dict(name="enc", run="^(TestFaultEncoders|TestCorpus)$", timeout=(300, 900), shards=(1, 8)),
         dict(name="big", run="^TestFaultBig$", timeout=(300, 900), shards=(1, 8)),
+        dict(name="counts", run="^TestFaultCounts$", timeout=(300, 1800), shards=(4, 16)),
     ],
-    require=[("fault", "artifact>64KiB-sampled-positions"), ("fault", "ser:bundle"), ("fault", "bundle:b1"), ("fault", "bundle:b2"),
+    require=[("fault", "count-sweep-thin-positions"), ("fault", "artifact>64KiB-sampled-positions"), ("fault", "ser:bundle"), ("fault", "bundle:b1"), ("fault", "bundle:b2"),
              ("fault", "ser:sxg-write"), ("fault", "sxg-write:1b1"), ("fault", "sxg-write:1b2"), ("fault", "sxg-write:1b3"),
              ("fault", "ser:sxg-headers"), ("fault", "ser:sxg-signedmsg"), ("fault", "ser:certchain"), ("fault", "certchain:1"), ("fault", "certchain:3"),
              ("fault", "ser:mice"), ("fault", "mice:draft02"), ("fault", "mice:draft03"), ("fault", "ser:cbor"),
